@@ -1,5 +1,5 @@
 // gen.go — the C01 quantifier as a grammar: argument values x chain methods x finishers.
-package main
+package cgen
 
 import (
 	"fmt"
@@ -8,31 +8,35 @@ import (
 	"verifharness/lib"
 )
 
-type gen struct {
+type Gen struct {
 	r    *lib.Rng
 	fr   *fresher
 	exec bool // cleared when a construct is produced that SQLite cannot run (DryRun-only case)
 	bad  bool // the case deliberately leaves the property's domain
 }
 
-func newGen(r *lib.Rng) *gen { return &gen{r: r, fr: &fresher{rng: r.Fork()}, exec: true} }
+// Rng is the generator's PRNG; Exec reports whether everything generated so far can run on SQLite.
+func (g *Gen) Rng() *lib.Rng { return g.r }
+func (g *Gen) Exec() bool    { return g.exec }
+
+func NewGen(r *lib.Rng) *Gen { return &Gen{r: r, fr: &fresher{rng: r.Fork()}, exec: true} }
 
 var cols = []string{"name", "code", "age", "id", "data", "note", "nick", "active"}
 
-func (g *gen) col() string { return lib.Pick(g.r, cols[:5]) }
+func (g *Gen) col() string { return lib.Pick(g.r, cols[:5]) }
 
 // ---- scalars ----
-func (g *gen) str() V {
+func (g *Gen) str() V {
 	return vs(Sc{K: "str", S: g.fr.str()}, lib.Pick(g.r, []string{"string", "string", "string", "*string", "mystr"}))
 }
-func (g *gen) int() V {
+func (g *Gen) int() V {
 	return vs(Sc{K: "int", I: int64(g.r.Range(1, 60))}, lib.Pick(g.r, []string{"int", "int64", "int64", "uint", "int32", "*int64"}))
 }
-func (g *gen) null() V {
+func (g *Gen) null() V {
 	return vs(Sc{K: "null"}, lib.Pick(g.r, []string{"nil", "*string", "*int64"}))
 }
-func (g *gen) bytes() V { return vs(Sc{K: "bytes", S: g.fr.str()[:3+g.r.Intn(3)]}, "[]byte") }
-func (g *gen) scalar() V {
+func (g *Gen) bytes() V { return vs(Sc{K: "bytes", S: g.fr.str()[:3+g.r.Intn(3)]}, "[]byte") }
+func (g *Gen) scalar() V {
 	switch g.r.Intn(12) {
 	case 0, 1, 2, 3, 4:
 		return g.str()
@@ -47,7 +51,7 @@ func (g *gen) scalar() V {
 	}
 	return g.drv()
 }
-func (g *gen) drv() V {
+func (g *Gen) drv() V {
 	mk := func(s Sc, variant string) V { return V{T: "VDrv", Sc: &s, Go: variant} }
 	switch g.r.Intn(8) {
 	case 0, 1:
@@ -67,7 +71,7 @@ func (g *gen) drv() V {
 }
 
 // ---- slices ----
-func (g *gen) list(depth int, allowEmpty bool) V {
+func (g *Gen) list(depth int, allowEmpty bool) V {
 	n := g.r.Range(1, 3)
 	if allowEmpty && g.r.Chance(1, 6) {
 		n = 0
@@ -125,7 +129,7 @@ func (g *gen) list(depth int, allowEmpty bool) V {
 }
 
 // nested list: [][]interface{} (rendered ((a,b),(c,d)); not executable on SQLite)
-func (g *gen) nested() V {
+func (g *Gen) nested() V {
 	g.exec = false
 	rows := make([]V, g.r.Range(1, 2))
 	for i := range rows {
@@ -135,7 +139,7 @@ func (g *gen) nested() V {
 }
 
 // ---- expressions with their own arguments ----
-func (g *gen) expr(depth int) V {
+func (g *Gen) expr(depth int) V {
 	switch g.r.Intn(5) {
 	case 0:
 		return V{T: "VExpr", S: "? + ?", L: []V{g.int(), g.int()}}
@@ -151,14 +155,14 @@ func (g *gen) expr(depth int) V {
 	}
 	return V{T: "VExpr", S: "length(?)", L: []V{g.str()}}
 }
-func (g *gen) listOf2() V {
+func (g *Gen) listOf2() V {
 	l := g.list(0, false)
 	for len(l.L) < 2 && l.Go != "[2]int64" {
 		l.L = append(l.L, l.L[0])
 	}
 	return l
 }
-func (g *gen) gormValuer() V {
+func (g *Gen) gormValuer() V {
 	switch g.r.Intn(4) {
 	case 0:
 		return V{T: "VGormValuer", B: true, Go: "ptr", X: vp(V{T: "VExpr", S: "(? + ?)", L: []V{vInt(1), vInt(1)}})}
@@ -168,9 +172,9 @@ func (g *gen) gormValuer() V {
 	return V{T: "VGormValuer", Go: "val", X: vp(V{T: "VExpr", S: "lower(?) || ?", L: []V{g.str(), g.str()}})}
 }
 
-// ---- sub-query handles ----
-func (g *gen) sub(depth int, scalarSub bool) V {
-	ti := itemTI
+// ---- sub-query Handles ----
+func (g *Gen) sub(depth int, scalarSub bool) V {
+	ti := ItemTI
 	if g.r.Chance(1, 3) {
 		ti = itemsTableTI
 	}
@@ -193,7 +197,7 @@ func (g *gen) sub(depth int, scalarSub bool) V {
 	}
 	return V{T: "VSub", TI: &ti, L: chain}
 }
-func (g *gen) rawsub() V {
+func (g *Gen) rawsub() V {
 	switch g.r.Intn(4) {
 	case 0:
 		return V{T: "VRawSub", S: "SELECT id FROM items WHERE name = ? OR age IN (?)", L: []V{g.str(), g.listNoBytes()}}
@@ -209,7 +213,7 @@ func (g *gen) rawsub() V {
 	}
 	return V{T: "VRawSub", S: "SELECT id FROM items WHERE name IN (?,?,?,?,?,?,?,?,?,?) OR code = ?", L: l}
 }
-func (g *gen) scalarNoBytes() V {
+func (g *Gen) scalarNoBytes() V {
 	for {
 		v := g.scalar()
 		if v.Sc.K != "bytes" {
@@ -217,10 +221,10 @@ func (g *gen) scalarNoBytes() V {
 		}
 	}
 }
-func (g *gen) listNoBytes() V { return g.list(0, true) }
+func (g *Gen) listNoBytes() V { return g.list(0, true) }
 
 // ---- argument of one placeholder ----
-func (g *gen) arg(depth int) V {
+func (g *Gen) arg(depth int) V {
 	switch g.r.Intn(20) {
 	case 0:
 		if depth > 0 {
@@ -242,7 +246,7 @@ type atom struct {
 	args []V
 }
 
-func (g *gen) atom(depth int) atom {
+func (g *Gen) atom(depth int) atom {
 	c := g.col()
 	switch g.r.Intn(16) {
 	case 0, 1, 2, 3:
@@ -289,7 +293,7 @@ func (g *gen) atom(depth int) atom {
 	return atom{c + " = ?", []V{g.scalar()}}
 }
 
-func (g *gen) template(depth int) (string, []V) {
+func (g *Gen) template(depth int) (string, []V) {
 	n := lib.Pick(g.r, []int{1, 1, 1, 2, 2, 3})
 	var sb strings.Builder
 	var args []V
@@ -309,7 +313,7 @@ func (g *gen) template(depth int) (string, []V) {
 }
 
 // named template: positional atoms rewritten with @names
-func (g *gen) namedTemplate() (string, V) {
+func (g *Gen) namedTemplate() (string, V) {
 	names := []string{"Name", "Age", "Code"}
 	colOfName := map[string]string{"Name": "name", "Age": "age", "Code": "code"}
 	n := g.r.Range(1, 3)
@@ -376,7 +380,7 @@ func (g *gen) namedTemplate() (string, V) {
 }
 
 // ---- clause.Expression trees ----
-func (g *gen) cexpr(depth int) V {
+func (g *Gen) cexpr(depth int) V {
 	colv := func() V {
 		if g.r.Chance(1, 4) {
 			return V{T: "VCol", S: "items", S2: g.col()}
@@ -451,7 +455,7 @@ func normExpr(v V) V {
 }
 
 // ---- struct and map conditions ----
-func (g *gen) fieldVal(c string, zero bool) V {
+func (g *Gen) fieldVal(c string, zero bool) V {
 	switch c {
 	case "id":
 		if zero {
@@ -489,9 +493,9 @@ func (g *gen) fieldVal(c string, zero bool) V {
 }
 
 // all fields of an Item in column order; pzero = probability (in sixths) that a field is zero
-func (g *gen) fields(pzero int, idZero bool) []V {
+func (g *Gen) fields(pzero int, idZero bool) []V {
 	out := []V{}
-	for _, f := range itemTI.Fields {
+	for _, f := range ItemTI.Fields {
 		c := f[1]
 		zero := g.r.Chance(pzero, 6)
 		if c == "id" {
@@ -502,7 +506,7 @@ func (g *gen) fields(pzero int, idZero bool) []V {
 	return out
 }
 
-func (g *gen) mapCond() V {
+func (g *Gen) mapCond() V {
 	n := g.r.Range(1, 3)
 	seen := map[string]bool{}
 	var es []V
@@ -530,7 +534,7 @@ func (g *gen) mapCond() V {
 }
 
 // ---- one Where / Not / Or call ----
-func (g *gen) condCall(depth int, allowOr bool) V {
+func (g *Gen) condCall(depth int, allowOr bool) V {
 	k := lib.Pick(g.r, []string{"KWh", "KWh", "KWh", "KNot", "KOr"})
 	if !allowOr && k == "KOr" {
 		k = "KWh"
@@ -539,7 +543,7 @@ func (g *gen) condCall(depth int, allowOr bool) V {
 	return V{T: "KCond", S: k, X: &q, L: args}
 }
 
-func (g *gen) condForm(depth int) (V, []V) {
+func (g *Gen) condForm(depth int) (V, []V) {
 	switch g.r.Intn(20) {
 	case 0, 1, 2, 3, 4, 5:
 		t, a := g.template(depth)
@@ -604,7 +608,7 @@ func (g *gen) condForm(depth int) (V, []V) {
 }
 
 // ---- out-of-domain calls: only model and code have to agree on them ----
-func (g *gen) badCall() V {
+func (g *Gen) badCall() V {
 	g.exec = false
 	g.bad = true
 	switch g.r.Intn(7) {
@@ -626,13 +630,13 @@ func (g *gen) badCall() V {
 }
 
 // ---- whole cases ----
-func (g *gen) queryChain(depth int) []V {
+func (g *Gen) queryChain(depth int) []V {
 	var ch []V
 	if g.r.Chance(1, 8) {
 		ch = append(ch, V{T: "KTable", S: "items"})
 	} else if g.r.Chance(1, 10) {
 		name := lib.Pick(g.r, []string{"(?) AS items", "(?) as items"})
-		sub := V{T: "VSub", TI: &itemTI, L: []V{g.condCall(depth-1, false)}}
+		sub := V{T: "VSub", TI: &ItemTI, L: []V{g.condCall(depth-1, false)}}
 		ch = append(ch, V{T: "KTable", S: name, S2: tableAlias(name), L: []V{sub}})
 	}
 	if g.r.Chance(1, 10) {
@@ -690,7 +694,7 @@ func (g *gen) queryChain(depth int) []V {
 	return ch
 }
 
-func (g *gen) whereChain(depth int) []V {
+func (g *Gen) whereChain(depth int) []V {
 	var ch []V
 	for i := g.r.Range(1, 3); i > 0; i-- {
 		ch = append(ch, g.condCall(depth, len(ch) > 0))
@@ -698,7 +702,7 @@ func (g *gen) whereChain(depth int) []V {
 	return ch
 }
 
-func (g *gen) setValue(c string) V {
+func (g *Gen) setValue(c string) V {
 	switch g.r.Intn(8) {
 	case 0:
 		return V{T: "VExpr", S: c + " || ?", L: []V{g.str()}}
@@ -714,7 +718,7 @@ func (g *gen) setValue(c string) V {
 	return g.scalar()
 }
 
-func (g *gen) onConflict() V {
+func (g *Gen) onConflict() V {
 	oc := V{T: "VOnConflict", L: []V{{T: "VCol", S2: "id"}}}
 	switch g.r.Intn(3) {
 	case 0:
@@ -741,7 +745,7 @@ var rawTemplates = []struct {
 	{true, "INSERT INTO items (name, age, data) VALUES (?, ?, ?)", 3},
 }
 
-func (g *gen) rawFin() Fin {
+func (g *Gen) rawFin() Fin {
 	if g.r.Chance(1, 4) {
 		// named
 		ex := g.r.Bool()
@@ -782,8 +786,8 @@ func (g *gen) rawFin() Fin {
 }
 
 // one case
-func (g *gen) input() Input {
-	in := Input{TI: itemTI}
+func (g *Gen) Input() Input {
+	in := Input{TI: ItemTI}
 	depth := 2
 	switch g.r.Intn(20) {
 	case 0, 1, 2, 3, 4:
@@ -894,8 +898,8 @@ func (g *gen) input() Input {
 }
 
 // an input with one deliberately malformed call
-func (g *gen) badInput() Input {
-	in := Input{TI: itemTI, Chain: []V{g.badCall()}, Fin: Fin{K: "find"}}
+func (g *Gen) BadInput() Input {
+	in := Input{TI: ItemTI, Chain: []V{g.badCall()}, Fin: Fin{K: "find"}}
 	if g.r.Bool() {
 		in.Chain = append([]V{g.condCall(1, false)}, in.Chain...)
 	}
@@ -929,7 +933,7 @@ func shapeOf(v V, sb *strings.Builder) {
 		}
 	}
 }
-func shape(in Input) string {
+func Shape(in Input) string {
 	var sb strings.Builder
 	for _, c := range in.Chain {
 		shapeOf(c, &sb)
